@@ -85,3 +85,28 @@ fn c09_inner_apply() {
     assert!(rc4h::rc4_same(&c.inner, &r), "C09: InnerCrypto::apply leaves another state than RC4");
     kani::cover!(inner_pos(&c0) == 254, "counter wrap");
 }
+
+/// C09 (through the constructor only, no knowledge of the struct's fields): with the RC4 key schedule
+/// replaced by a fixed concrete state, `InnerCrypto::new` followed by calls of 250, 10 and 3 bytes produces
+/// exactly RC4 keystream bytes 1024.. of that state XORed onto the (symbolic) data — whatever buffering the
+/// implementation uses internally. Robust against changes of the struct layout.
+#[kani::proof]
+#[kani::unwind(1030)]
+#[kani::stub(crate::rc4::Rc4::new, rc4h::stub_new_identity)]
+fn c09_inner_stream() {
+    let sk: [u8; 40] = kani::any();
+    let dir: [u8; 16] = kani::any();
+    let mut c = InnerCrypto::new(sk, &dir);
+    let data: [u8; 263] = kani::any();
+    let mut out = data;
+    c.apply(&mut out[..250]);
+    c.apply(&mut out[250..260]);
+    c.apply(&mut out[260..263]);
+    let ks = rc4h::reference_keystream_after_drop();
+    let mut k = 0;
+    while k < 263 {
+        assert!(out[k] == data[k] ^ ks[k], "C09: stream bytes are not RC4 keystream (after dropping 1024) XOR data");
+        k += 1;
+    }
+    kani::cover!(true, "three calls crossing byte 240 and 256");
+}
